@@ -60,6 +60,9 @@ type MQ struct {
 	onReq         []func(r *Req)
 	onSub         []func(ns string, active bool)
 	UseAfterClose int
+	// cbMu serialises Close against callbacks in flight: like the real
+	// adapter, no callback is delivered once Close has returned.
+	cbMu sync.RWMutex
 }
 
 // InboxLen is the length of a nats inbox subject ("_INBOX." + 22 characters).
@@ -72,11 +75,30 @@ func NewMQ(canon func(string) string, now func() int) *MQ {
 	return &MQ{names: map[string]int{}, canon: canon, now: now}
 }
 
-func (m *MQ) Connect() error { return nil }
+func (m *MQ) Connect() error {
+	m.mu.Lock()
+	m.closed = false
+	m.mu.Unlock()
+	return nil
+}
 
+// Close drops all subscriptions and pending requests without completing
+// them, like the NATS adapter does.
 func (m *MQ) Close() {
+	m.cbMu.Lock()
+	defer m.cbMu.Unlock()
 	m.mu.Lock()
 	m.closed = true
+	for _, s := range m.subs {
+		s.Active = false
+	}
+	for _, r := range m.reqs {
+		if !r.Answered {
+			r.Answered = true
+			r.Outcome = "dropped"
+			r.AnsTime = m.now()
+		}
+	}
 	m.mu.Unlock()
 }
 
@@ -192,7 +214,13 @@ func (m *MQ) Requests() []*Req {
 // Answer delivers a response to a pending request on the caller's goroutine
 // (the real adapter delivers from its single listener goroutine).
 func (m *MQ) Answer(r *Req, outcome string, data []byte, err error) {
+	m.cbMu.RLock()
+	defer m.cbMu.RUnlock()
 	m.mu.Lock()
+	if m.closed {
+		m.mu.Unlock()
+		return
+	}
 	if r.Answered {
 		m.mu.Unlock()
 		panic("ctlmq: request answered twice: " + r.Name)
@@ -247,7 +275,13 @@ func (m *MQ) Publish(subject string, payload []byte) int {
 		return 0
 	}
 	ns := subject[:i]
+	m.cbMu.RLock()
+	defer m.cbMu.RUnlock()
 	m.mu.Lock()
+	if m.closed {
+		m.mu.Unlock()
+		return 0
+	}
 	var targets []*MQSub
 	for _, s := range m.subs {
 		if s.Active && s.Namespace == ns {
